@@ -60,6 +60,19 @@ def subchains(t):
     return sorted(set(out))[:6]
 
 
+def root_subchains(t):
+    """the sub-chains of subchains(t) that start at the reducing end itself"""
+    out = []
+    cur, names, links = t, [t.name], []
+    while cur.kids:
+        an, c, p, k = cur.kids[0]
+        links.append(f"({an}{c}-{p})")
+        names.append(k.name)
+        cur = k
+        out.append("".join(nm + ln for nm, ln in zip(reversed(names[1:]), reversed(links))) + names[0])
+    return out
+
+
 def run(tier):
     res = C.build()
     report = C.Report(PROP, tier)
@@ -110,7 +123,10 @@ def run(tier):
     # glycans written with their reducing-end anomer contain themselves (all matching modes) and their sub-chains
     n_undet = len(qitems)
     for t in trees[:(14 if tier == "quick" else 150)]:
-        qitems.append({"iupac": T.render(t) + " " + r.choice("ab"), "queries": [], "self": True, "subchains": subchains(t), "kw": {}})
+        an_ = r.choice("ab")
+        # sub-chains that contain the reducing end are written with its anomer too; the reducing end alone is one of them
+        subs_ = [q_ + " " + an_ for q_ in root_subchains(t)[:4]] + [t.name + " " + an_]
+        qitems.append({"iupac": T.render(t) + " " + an_, "queries": [], "self": True, "subchains": sorted(set(subs_)), "kw": {}})
     qouts = C.run_impl_parallel("queries", qitems, extra={"tmp": os.path.join(C.BUILD, "tmp_c16q")}) if qitems else []
     for qi_, (it_, o_) in enumerate(zip(qitems, qouts)):
         report.case(("undetermined:" if qi_ < n_undet else "anomer-suffix:") + it_["iupac"], True)
@@ -118,6 +134,11 @@ def run(tier):
             continue
         if o_.get("self") and (any(isinstance(x, str) for x in o_["self"]) or min(o_["self"]) < 1):
             report.fail({"site": "count", "kind": "self-not-contained", "linkage": "undetermined" if qi_ < n_undet else "written-root-anomer"}, {"glycan": it_["iupac"], "counts_of_itself": o_["self"]})
+        for q, c3 in o_.get("sub_all_fg", {}).items():
+            if qi_ >= n_undet and (isinstance(c3, str) or c3 < 1):
+                report.fail({"site": "count", "kind": "own-subchain-not-found", "linkage": "written-root-anomer", "mode": "every"},
+                            {"glycan": it_["iupac"], "subchain": q, "count_match_all_fg": c3,
+                             "problem": "a sub-chain of the glycan (same residues, written the same way) is not found under match_all_fg"})
         for q, (c1, c2) in o_.get("sub", {}).items():
             if isinstance(c1, str) or isinstance(c2, str) or c1 < 1 or c2 < 1:
                 report.fail({"site": "count", "kind": "own-subchain-not-found", "linkage": "undetermined" if qi_ < n_undet else "written-root-anomer"}, {"glycan": it_["iupac"], "subchain": q, "counts": [c1, c2]})
